@@ -16,7 +16,6 @@ use mahf::components::misc::cro::ChemicalReaction;
 use mahf::components::swarm::pso::{BestParticle, BestParticles};
 use mahf::identifier::Global;
 use mahf::population::{AsSolutions, AsSolutionsMut, BestIndividual, IntoIndividuals, IntoSingle, IntoSingleRef, IntoSolutions, SingleIndividualError};
-use mahf::problems::ObjectiveFunction;
 use mahf::verif::Phase;
 use mahf::{Individual, SingleObjective, State};
 
@@ -169,134 +168,274 @@ fn pool_f(kind: &str, inst: u32, npool: usize) -> Vec<f64> {
     }
 }
 
-// ------------------------------------------------------------------ component level
-use mahf::components::{boundary, mutation, recombination, replacement, swarm};
-use mahf::components::evaluation::BestIndividualUpdate;
+
+// ------------------------------------------------------------------ snapshots of the whole state
+use mahf::components::evaluation::{BestIndividualUpdate, PopulationEvaluator};
 use mahf::components::swarm::pso::ParticleVelocities;
-use mahf::state::common::Populations;
+use mahf::components::{archive, boundary, misc::cro, mutation, recombination, replacement, selection, swarm, utils};
+use mahf::problems::Sequential;
+use mahf::state::common::{Evaluations, Populations};
 use mahf::{Component, Random};
 
-fn status<Q: HProblem>(i: &Individual<Q>, problem: &Q) -> &'static str {
-    match i.get_objective() {
-        None => "f",
-        Some(o) => {
-            let w = problem.raw_f(i.solution());
-            let w = if w.is_nan() { f64::INFINITY } else { w };
-            if o.value().to_bits() == w.to_bits() { "t" } else { "s" }
+/// Solutions of one case are interned (ids by `==` on the encoding, which is also what `Individual::eq`,
+/// `contains` and `position` use); the objective table `(f …)` is recomputed with `raw_f` per id.
+struct Intern<Q: HProblem> {
+    sols: Vec<Q::Encoding>,
+}
+impl<Q: HProblem> Intern<Q> {
+    fn new() -> Self { Intern { sols: vec![] } }
+    fn id(&mut self, s: &Q::Encoding) -> usize {
+        if let Some(k) = self.sols.iter().position(|x| x == s) { return k; }
+        self.sols.push(s.clone());
+        self.sols.len() - 1
+    }
+    fn ind(&mut self, i: &Individual<Q>) -> String {
+        let k = self.id(i.solution());
+        match i.get_objective() {
+            None => format!("({k})"),
+            Some(o) => format!("({k} {})", fx(o.value())),
         }
     }
+    fn ftab(&self, problem: &Q) -> String {
+        tagged("f", self.sols.iter().map(|s| { let w = problem.raw_f(s); fx(if w.is_nan() { f64::INFINITY } else { w }) }))
+    }
 }
+/// `(snap (stack POP*) (best IND*) (arch IND*) (pbest IND*) (gbest IND*) (mols IND*))`, head of `stack` = top.
+fn snapshot<Q: HProblem>(state: &State<Q>, it: &mut Intern<Q>) -> String {
+    let mut stack = vec![];
+    if let Ok(pops) = state.try_borrow::<Populations<Q>>() {
+        for d in 0..pops.len() { stack.push(list(pops.peek(d).iter().map(|i| it.ind(i)))); }
+    }
+    let mut best = vec![];
+    if let Some(bi) = state.best_individual() { best.push(it.ind(&bi)); }
+    let mut arch = vec![];
+    if let Ok(a) = state.try_borrow::<ElitistArchive<Q>>() { for i in a.elitists() { arch.push(it.ind(i)); } }
+    let mut pbest = vec![];
+    if let Ok(bp) = state.try_borrow::<BestParticles<Q, Global>>() { for i in bp.iter() { pbest.push(it.ind(i)); } }
+    let mut gbest = vec![];
+    if let Ok(bp) = state.try_borrow::<BestParticle<Q, Global>>() { if let Some(i) = bp.as_ref() { gbest.push(it.ind(i)); } }
+    let mut mols = vec![];
+    if let Ok(cr) = state.try_borrow::<ChemicalReaction<Q>>() { for m in cr.iter() { mols.push(it.ind(&m.best)); } }
+    tagged("snap", [tagged("stack", stack), tagged("best", best), tagged("arch", arch), tagged("pbest", pbest), tagged("gbest", gbest), tagged("mols", mols)])
+}
+
+// ------------------------------------------------------------------ component level
 fn evaluated<Q: HProblem>(problem: &Q, sol: Q::Encoding) -> Individual<Q> {
     let v = problem.raw_f(&sol);
     Individual::new(sol, SingleObjective::try_from(v).unwrap_or(so(f64::INFINITY)))
 }
-/// Runs `comp` on the prepared stack (`pops` listed top first); reports the status of every individual.
-fn exec<Q: HProblem>(problem: &Q, comp: Box<dyn Component<Q>>, pops: Vec<Vec<Q::Encoding>>, seed: u64, prep: impl FnOnce(&mut State<Q>)) -> String {
+
+/// Components that exist for every problem type.
+fn make_generic<Q: HProblem>(name: &str, pr: &[f64]) -> Option<Box<dyn Component<Q>>> {
+    let u = |k: usize| pr.get(k).copied().unwrap_or(0.0) as u32;
+    Some(match name {
+        "PopulationEvaluator" => PopulationEvaluator::new(),
+        "BestIndividualUpdate" => BestIndividualUpdate::new(),
+        "All" => selection::All::new(),
+        "CloneSingle" => selection::CloneSingle::new(u(0)),
+        "FullyRandom" => selection::FullyRandom::new(u(0)),
+        "RandomWithoutRepetition" => selection::RandomWithoutRepetition::new(u(0)),
+        "Tournament" => selection::Tournament::new(u(0), u(1)),
+        "LinearRank" => selection::LinearRank::new(u(0)),
+        "RouletteWheel" => selection::RouletteWheel::new(u(0), pr.get(1).copied().unwrap_or(0.0)),
+        "DiscardOffspring" => replacement::DiscardOffspring::new(),
+        "Merge" => replacement::Merge::new(),
+        "MuPlusLambda" => replacement::MuPlusLambda::new(u(0)),
+        "Generational" => replacement::Generational::new(u(0)),
+        "RandomReplacement" => replacement::RandomReplacement::new(u(0)),
+        "KeepBetterAtIndex" => replacement::KeepBetterAtIndex::new(),
+        "ElitistArchiveUpdate" => archive::ElitistArchiveUpdate::new(u(0) as usize),
+        "ElitistArchiveIntoPopulation" => archive::ElitistArchiveIntoPopulation::new(),
+        "ChemicalReactionInit" => cro::ChemicalReactionInit::new(pr.first().copied().unwrap_or(0.0), pr.get(1).copied().unwrap_or(0.0)),
+        "OnWallIneffectiveCollisionUpdate" => cro::OnWallIneffectiveCollisionUpdate::new(pr.first().copied().unwrap_or(0.0)),
+        "DecompositionUpdate" => cro::DecompositionUpdate::new(),
+        "IntermolecularIneffectiveCollisionUpdate" => cro::IntermolecularIneffectiveCollisionUpdate::new(),
+        "SynthesisUpdate" => cro::SynthesisUpdate::new(),
+        "DuplicatePopulation" => utils::populations::DuplicatePopulation::new(),
+        _ => return None,
+    })
+}
+fn make_real(name: &str, pr: &[f64]) -> Option<Box<dyn Component<Sphere>>> {
+    type Q = Sphere;
+    let both = |v: f64| v != 0.0;
+    Some(match name {
+        "Saturation" => boundary::Saturation::new(),
+        "Toroidal" => boundary::Toroidal::new(),
+        "Mirror" => boundary::Mirror::new(),
+        "CompleteOneTailedNormalCorrection" => boundary::CompleteOneTailedNormalCorrection::new(),
+        "NormalMutation" => mutation::NormalMutation::new(pr[0], pr[1]),
+        "UniformMutation" => mutation::UniformMutation::new(pr[0], pr[1]),
+        "PartialRandomSpread" => mutation::PartialRandomSpread::new(pr[0]),
+        "ParticleVelocitiesUpdate" => swarm::pso::ParticleVelocitiesUpdate::new(pr[0], pr[1], pr[2], pr[3]).ok()?,
+        "PersonalBestParticlesInit" => swarm::pso::PersonalBestParticlesInit::<Global>::new(),
+        "PersonalBestParticlesUpdate" => swarm::pso::PersonalBestParticlesUpdate::<Global>::new(),
+        "GlobalBestParticleUpdate" => swarm::pso::GlobalBestParticleUpdate::<Global>::new(),
+        "BlackHoleParticlesUpdate" => swarm::bh::BlackHoleParticlesUpdate::new(),
+        "FireflyPositionsUpdate" => swarm::fa::FireflyPositionsUpdate::new(pr[0], pr[1], pr[2]),
+        "EventHorizon" => replacement::bh::EventHorizon::new(),
+        "DEMutation" => mutation::de::DEMutation::new(pr[0] as u32, pr[1]).ok()?,
+        "DEBinomialCrossover" => recombination::de::DEBinomialCrossover::new(pr[0]),
+        "DEExponentialCrossover" => recombination::de::DEExponentialCrossover::new(pr[0]),
+        "ArithmeticCrossover" => recombination::ArithmeticCrossover::new(pr[0], both(pr[1])),
+        "UniformCrossover" => recombination::UniformCrossover::new::<Q, f64>(pr[0], both(pr[1])),
+        "NPointCrossover" => recombination::NPointCrossover::new::<Q, f64>(pr[0] as usize, pr[1], both(pr[2])),
+        other => return make_generic(other, pr),
+    })
+}
+fn make_binary(name: &str, pr: &[f64]) -> Option<Box<dyn Component<OneMax>>> {
+    type Q = OneMax;
+    let both = |v: f64| v != 0.0;
+    Some(match name {
+        "BitFlipMutation" => mutation::BitFlipMutation::new(pr[0]),
+        "PartialRandomBitstring" => mutation::PartialRandomBitstring::new(pr[0], pr[1]),
+        "UniformCrossover" => recombination::UniformCrossover::new::<Q, bool>(pr[0], both(pr[1])),
+        "NPointCrossover" => recombination::NPointCrossover::new::<Q, bool>(pr[0] as usize, pr[1], both(pr[2])),
+        other => return make_generic(other, pr),
+    })
+}
+fn make_perm(name: &str, pr: &[f64]) -> Option<Box<dyn Component<Tsp>>> {
+    type Q = Tsp;
+    let both = |v: f64| v != 0.0;
+    Some(match name {
+        "SwapMutation" => mutation::SwapMutation::new(pr[0] as u32).ok()?,
+        "ScrambleMutation" => mutation::ScrambleMutation::new(pr[0]),
+        "InversionMutation" => mutation::InversionMutation::new::<Q, usize>(),
+        "InsertionMutation" => mutation::common::InsertionMutation::new(),
+        "TranslocationMutation" => mutation::TranslocationMutation::new(),
+        "CycleCrossover" => recombination::CycleCrossover::new::<Q, usize>(pr[0], both(pr[1])),
+        other => return make_generic(other, pr),
+    })
+}
+
+/// Runs one component on a prepared state and reports `((res R) (f …) (before SNAP) (after SNAP))`.
+/// `pops` are listed top first, each member with its evaluated flag. `pre = (component, depth)`: before the
+/// `before` snapshot the top `depth` populations are set aside, the setup component is initialised and
+/// executed, and the populations are put back (this seeds a memory from a DIFFERENT population).
+fn exec<Q: HProblem>(
+    problem: &Q, comp: Box<dyn Component<Q>>, pops: Vec<Vec<(bool, Q::Encoding)>>, seed: u64,
+    pre: Option<(Box<dyn Component<Q>>, usize)>, prep: impl FnOnce(&mut State<Q>, &Q),
+) -> String {
     let mut state: State<Q> = State::new();
     state.insert(Populations::<Q>::new());
     state.insert(Random::new(seed));
+    state.insert_evaluator(Sequential::<Q>::new());
     for p in pops.into_iter().rev() {
-        state.populations_mut().push(p.into_iter().map(|s| evaluated(problem, s)).collect());
+        state.populations_mut().push(p.into_iter().map(|(ev, s)| if ev { evaluated(problem, s) } else { Individual::new_unevaluated(s) }).collect());
     }
-    let res = match catch(|| -> Result<(), eyre::Report> {
+    let setup = catch(|| -> Result<(), eyre::Report> {
         comp.init(problem, &mut state)?;
-        prep(&mut state);
-        comp.execute(problem, &mut state)
-    }) {
+        if state.try_borrow::<Evaluations>().is_err() { state.insert(Evaluations(0)); }
+        if let Some((pc, depth)) = &pre {
+            let mut aside = vec![];
+            for _ in 0..*depth { aside.push(state.populations_mut().pop()); }
+            pc.init(problem, &mut state)?;
+            pc.execute(problem, &mut state)?;
+            while let Some(p) = aside.pop() { state.populations_mut().push(p); }
+        }
+        prep(&mut state, problem);
+        Ok(())
+    });
+    if !matches!(setup, Some(Ok(()))) { return "((res setup))".into(); }
+    let mut it = Intern::<Q>::new();
+    let before = snapshot(&state, &mut it);
+    let res = match catch(|| comp.execute(problem, &mut state)) {
         None => "panic",
         Some(Err(_)) => "err",
         Some(Ok(())) => "ok",
     };
-    let stack = catch(|| {
-        let pops = state.populations();
-        (0..pops.len()).map(|d| list(pops.peek(d).iter().map(|i| status(i, problem).to_string()))).collect::<Vec<_>>()
-    })
-    .unwrap_or_default();
-    format!("((res {}) {})", res, tagged("stack", stack))
+    let after = catch(|| snapshot(&state, &mut it)).unwrap_or_else(|| "(snap)".into());
+    list([format!("(res {res})"), it.ftab(problem), format!("(before {before})"), format!("(after {after})")])
 }
 
-/// `(comp NAME (prob …) (seed N) (params x…) (pops POP+) [(vel V+)])`
+/// Generic part of a component case: parses `(pops …)`, `(pre NAME depth p…)`, builds and runs.
+fn comp_case<Q: HProblem>(
+    problem: &Q, name: &str, a: &[Sx], parse_sol: &dyn Fn(&[Sx]) -> Q::Encoding,
+    make: &dyn Fn(&str, &[f64]) -> Option<Box<dyn Component<Q>>>, special: impl FnOnce(&mut State<Q>, &Q),
+) -> String {
+    let find = |tag: &str| a.iter().find_map(|x| x.head().filter(|(t, _)| *t == tag).map(|(_, r)| r.to_vec()));
+    let seed = find("seed").unwrap()[0].nat().unwrap();
+    let pr: Vec<f64> = find("params").unwrap_or_default().iter().map(|x| x.float().unwrap()).collect();
+    let pops: Vec<Vec<(bool, Q::Encoding)>> = find("pops").unwrap().iter().map(|p| {
+        p.items().unwrap().iter().map(|s| {
+            let it = s.items().unwrap();
+            if it.first().and_then(|x| x.atom()) == Some("u") { (false, parse_sol(&it[1..])) } else { (true, parse_sol(it)) }
+        }).collect()
+    }).collect();
+    let Some(comp) = make(name, &pr) else { return "((res setup))".into() };
+    let pre = match find("pre") {
+        None => None,
+        Some(p) => {
+            let pn = p[0].atom().unwrap();
+            let depth = p[1].nat().unwrap() as usize;
+            let ppr: Vec<f64> = p[2..].iter().map(|x| x.float().unwrap()).collect();
+            match make(pn, &ppr) { Some(c) => Some((c, depth)), None => return "((res setup))".into() }
+        }
+    };
+    exec(problem, comp, pops, seed, pre, special)
+}
+
+/// `(comp NAME (prob …) (seed N) (params x…) (pops POP+) [(vel V+)] [(pre NAME depth x…)])`;
+/// a member of a POP is `(c…)` (evaluated with raw_f) or `(u c…)` (unevaluated).
 fn run_comp(a: &[Sx]) -> String {
     let name = a[0].atom().unwrap();
     let find = |tag: &str| a.iter().find_map(|x| x.head().filter(|(t, _)| *t == tag).map(|(_, r)| r.to_vec()));
     let prob = find("prob").unwrap();
-    let seed = find("seed").unwrap()[0].nat().unwrap();
-    let pr: Vec<f64> = find("params").unwrap_or_default().iter().map(|x| x.float().unwrap()).collect();
-    let pops = find("pops").unwrap();
-    let both = |v: f64| v != 0.0;
     match prob[0].atom().unwrap() {
         "real" => {
             type Q = Sphere;
             let problem = Sphere::new(prob[1].nat().unwrap() as usize, prob[2].float().unwrap(), prob[3].float().unwrap(), prob[4].float().unwrap());
-            let pops: Vec<Vec<Vec<f64>>> = pops.iter().map(|p| p.items().unwrap().iter().map(|s| s.items().unwrap().iter().map(|x| x.float().unwrap()).collect()).collect()).collect();
-            let top: Vec<Individual<Q>> = pops[0].iter().map(|s| evaluated(&problem, s.clone())).collect();
             let vel: Vec<Vec<f64>> = find("vel").unwrap_or_default().iter().map(|s| s.items().unwrap().iter().map(|x| x.float().unwrap()).collect()).collect();
-            let comp: Box<dyn Component<Q>> = match name {
-                "Saturation" => boundary::Saturation::new(),
-                "Toroidal" => boundary::Toroidal::new(),
-                "Mirror" => boundary::Mirror::new(),
-                "CompleteOneTailedNormalCorrection" => boundary::CompleteOneTailedNormalCorrection::new(),
-                "NormalMutation" => mutation::NormalMutation::new(pr[0], pr[1]),
-                "UniformMutation" => mutation::UniformMutation::new(pr[0], pr[1]),
-                "PartialRandomSpread" => mutation::PartialRandomSpread::new(pr[0]),
-                "ParticleVelocitiesUpdate" => swarm::pso::ParticleVelocitiesUpdate::new(pr[0], pr[1], pr[2], pr[3]).unwrap(),
-                "BlackHoleParticlesUpdate" => swarm::bh::BlackHoleParticlesUpdate::new(),
-                "EventHorizon" => replacement::bh::EventHorizon::new(),
-                "DEMutation" => mutation::de::DEMutation::new(pr[0] as u32, pr[1]).unwrap(),
-                "DEBinomialCrossover" => recombination::de::DEBinomialCrossover::new(pr[0]),
-                "DEExponentialCrossover" => recombination::de::DEExponentialCrossover::new(pr[0]),
-                "ArithmeticCrossover" => recombination::ArithmeticCrossover::new(pr[0], both(pr[1])),
-                "UniformCrossover" => recombination::UniformCrossover::new::<Q, f64>(pr[0], both(pr[1])),
-                "NPointCrossover" => recombination::NPointCrossover::new::<Q, f64>(pr[0] as usize, pr[1], both(pr[2])),
-                other => panic!("unknown real component {other}"),
-            };
             let is_pso = name == "ParticleVelocitiesUpdate";
             let is_eh = name == "EventHorizon";
-            exec(&problem, comp, pops, seed, move |state| {
+            comp_case::<Q>(&problem, name, a, &|s| s.iter().map(|x| x.float().unwrap()).collect(), &make_real, move |state, problem| {
                 if is_pso {
+                    let top: Vec<Individual<Q>> = state.populations().current().to_vec();
                     state.insert(ParticleVelocities::<Global>::new(vel));
                     state.insert(BestParticle::<Q, Global>::new(top.first().cloned()));
                     state.insert(BestParticles::<Q, Global>::new(top));
                 } else if is_eh {
                     let bu = BestIndividualUpdate::new::<Q>();
-                    let p = Sphere::new(1, 0.0, 1.0, 0.0);
-                    bu.init(&p, state).unwrap();
-                    bu.execute(&p, state).unwrap();
+                    let _ = bu.init(problem, state);
+                    let _ = catch(|| bu.execute(problem, state));
                 }
             })
         }
         "binary" => {
-            type Q = OneMax;
             let problem = OneMax::new(prob[1].nat().unwrap() as usize);
-            let pops: Vec<Vec<Vec<bool>>> = pops.iter().map(|p| p.items().unwrap().iter().map(|s| s.items().unwrap().iter().map(|x| x.atom() == Some("t")).collect()).collect()).collect();
-            let comp: Box<dyn Component<Q>> = match name {
-                "BitFlipMutation" => mutation::BitFlipMutation::new(pr[0]),
-                "PartialRandomBitstring" => mutation::PartialRandomBitstring::new(pr[0], pr[1]),
-                "UniformCrossover" => recombination::UniformCrossover::new::<Q, bool>(pr[0], both(pr[1])),
-                "NPointCrossover" => recombination::NPointCrossover::new::<Q, bool>(pr[0] as usize, pr[1], both(pr[2])),
-                other => panic!("unknown binary component {other}"),
-            };
-            exec(&problem, comp, pops, seed, |_| {})
+            comp_case::<OneMax>(&problem, name, a, &|s| s.iter().map(|x| x.atom() == Some("t")).collect(), &make_binary, |_, _| {})
         }
         _ => {
-            type Q = Tsp;
             let problem = Tsp::random(prob[1].nat().unwrap() as usize, prob[2].nat().unwrap(), 9.0);
-            let pops: Vec<Vec<Vec<usize>>> = pops.iter().map(|p| p.items().unwrap().iter().map(|s| s.items().unwrap().iter().map(|x| x.nat().unwrap() as usize).collect()).collect()).collect();
-            let comp: Box<dyn Component<Q>> = match name {
-                "SwapMutation" => mutation::SwapMutation::new(pr[0] as u32).unwrap(),
-                "ScrambleMutation" => mutation::ScrambleMutation::new(pr[0]),
-                "InversionMutation" => mutation::InversionMutation::new::<Q, usize>(),
-                "InsertionMutation" => mutation::common::InsertionMutation::new(),
-                "TranslocationMutation" => mutation::TranslocationMutation::new(),
-                "CycleCrossover" => recombination::CycleCrossover::new::<Q, usize>(pr[0], both(pr[1])),
-                other => panic!("unknown permutation component {other}"),
-            };
-            exec(&problem, comp, pops, seed, |_| {})
+            comp_case::<Tsp>(&problem, name, a, &|s| s.iter().map(|x| x.nat().unwrap() as usize).collect(), &make_perm, |_, _| {})
         }
     }
 }
 
 fn fl(v: &[f64]) -> String { list(v.iter().map(|x| fx(*x))) }
+fn flu(v: &[f64], ev: bool) -> String { if ev { fl(v) } else { format!("(u {})", v.iter().map(|x| fx(*x)).collect::<Vec<_>>().join(" ")) } }
+fn pstr(params: &[f64]) -> String { params.iter().map(|v| fx(*v)).collect::<Vec<_>>().join(" ") }
+
+/// Population flavours for the shape cases.
+#[derive(Clone, Copy, PartialEq)]
+enum Flavour { Plain, Mixed, Ties, Dups }
+
+/// A population of `n` real solutions in `[-1, 1)^dim`: `Ties` contains mirror images (equal sphere value, different
+/// solution), `Dups` contains the same solution twice, `Mixed` marks some members unevaluated.
+fn real_pop(r: &mut Sm, n: usize, dim: usize, fl_: Flavour, outside: bool) -> Vec<(Vec<f64>, bool)> {
+    let mut p: Vec<(Vec<f64>, bool)> = vec![];
+    for k in 0..n {
+        let mut s: Vec<f64> = (0..dim).map(|_| {
+            let v = (r.below(15) as f64 - 7.0) / 8.0; // grid in [-0.875, 0.875]
+            if outside && r.chance(1, 3) { v + if r.chance(1, 2) { 1.5 } else { -1.5 } } else { v }
+        }).collect();
+        if k > 0 && fl_ == Flavour::Ties && r.chance(2, 3) { s = p[r.below(k as u64) as usize].0.iter().map(|v| -*v).collect(); }
+        if k > 0 && fl_ == Flavour::Dups && r.chance(1, 2) { s = p[r.below(k as u64) as usize].0.clone(); }
+        let ev = !(fl_ == Flavour::Mixed && r.chance(1, 2));
+        p.push((s, ev));
+    }
+    p
+}
+fn real_pop_s(p: &[(Vec<f64>, bool)]) -> String { list(p.iter().map(|(s, e)| flu(s, *e))) }
 
 /// Generates the component-level cases.
 fn gen_comp(r: &mut Sm, thorough: bool, emit: &mut dyn FnMut(String)) {
@@ -306,16 +445,18 @@ fn gen_comp(r: &mut Sm, thorough: bool, emit: &mut dyn FnMut(String)) {
         else if r.chance(1, 2) { lo - 0.1 - r.unit() * (hi - lo) } else { hi + 0.1 + r.unit() * (hi - lo) }
     };
     let sol = |r: &mut Sm, dim: usize, lo: f64, hi: f64, mask: u32| -> Vec<f64> { (0..dim).map(|k| coord(r, lo, hi, mask >> k & 1 == 1)).collect() };
-    let real_comps: [(&str, Vec<f64>, usize); 17] = [
-        ("Saturation", vec![], 1), ("Toroidal", vec![], 1), ("Mirror", vec![], 1), ("CompleteOneTailedNormalCorrection", vec![], 1),
-        ("NormalMutation", vec![0.1, 0.5], 1), ("NormalMutation", vec![0.1, 0.0], 1), ("UniformMutation", vec![0.5, 1.0], 1),
-        ("PartialRandomSpread", vec![0.0], 1), ("PartialRandomSpread", vec![0.5], 1),
-        ("BlackHoleParticlesUpdate", vec![], 1), ("EventHorizon", vec![], 1), ("DEMutation", vec![1.0, 0.5], 1),
-        ("DEBinomialCrossover", vec![0.5], 2), ("DEExponentialCrossover", vec![0.5], 2),
-        ("ArithmeticCrossover", vec![1.0, 1.0], 1), ("UniformCrossover", vec![0.5, 0.0], 1), ("NPointCrossover", vec![1.0, 1.0, 1.0], 1),
+    // (name, params, number of populations, tolerates unevaluated members)
+    let real_comps: [(&str, Vec<f64>, usize, bool); 19] = [
+        ("Saturation", vec![], 1, true), ("Toroidal", vec![], 1, true), ("Mirror", vec![], 1, true), ("CompleteOneTailedNormalCorrection", vec![], 1, true),
+        ("NormalMutation", vec![0.1, 0.5], 1, true), ("NormalMutation", vec![0.1, 0.0], 1, true), ("UniformMutation", vec![0.5, 1.0], 1, true),
+        ("PartialRandomSpread", vec![0.0], 1, true), ("PartialRandomSpread", vec![0.5], 1, true),
+        ("BlackHoleParticlesUpdate", vec![], 1, false), ("EventHorizon", vec![], 1, false), ("DEMutation", vec![1.0, 0.5], 1, true),
+        ("DEBinomialCrossover", vec![0.5], 2, true), ("DEExponentialCrossover", vec![0.5], 2, true),
+        ("ArithmeticCrossover", vec![1.0, 1.0], 1, true), ("UniformCrossover", vec![0.5, 0.0], 1, true), ("NPointCrossover", vec![1.0, 1.0, 1.0], 1, true),
+        ("UniformCrossover", vec![0.5, 1.0], 1, true), ("ArithmeticCrossover", vec![0.0, 0.0], 1, true),
     ];
     for _ in 0..reps {
-        for (name, params, npops) in real_comps.iter() {
+        for (name, params, npops, _) in real_comps.iter() {
             for dim in 1..=4usize {
                 if *name == "NPointCrossover" && dim < 2 { continue; }
                 for mask in 0..(1u32 << dim) {
@@ -328,7 +469,117 @@ fn gen_comp(r: &mut Sm, thorough: bool, emit: &mut dyn FnMut(String)) {
                             pops.push(list(p.iter().map(|s| fl(s))));
                         }
                         emit(format!("(comp {name} (prob real {dim} {} {} {}) (seed {}) (params {}) {})", fx(lo), fx(hi), fx(shift), r.below(1000),
-                            params.iter().map(|v| fx(*v)).collect::<Vec<_>>().join(" "), tagged("pops", pops)));
+                            pstr(params), tagged("pops", pops)));
+                    }
+                }
+            }
+        }
+        // shapes: sizes 0 / 1 / 2 / 5 / 6, unevaluated members, equal objective values with different solutions, duplicates,
+        // three populations on the stack (the lower ones must stay as they are)
+        for (name, params, npops, tolerant) in real_comps.iter() {
+            for size in [0usize, 1, 2, 5, 6] {
+                for flv in [Flavour::Plain, Flavour::Mixed, Flavour::Ties, Flavour::Dups] {
+                    if flv == Flavour::Mixed && !*tolerant { continue; }
+                    if size == 0 && flv != Flavour::Plain { continue; }
+                    if size == 1 && (flv == Flavour::Ties || flv == Flavour::Dups) { continue; }
+                    // boundary sizes get more repetitions (a fast path for a population of one or two is a classic)
+                    let nrep = match size { 0 => 1, 1 => 8, 2 => 4, _ => 2 };
+                    for _ in 0..nrep {
+                        let dim = 1 + r.below(4) as usize;
+                        if *name == "NPointCrossover" && dim < 2 { continue; }
+                        let outside = !name.contains("Crossover");
+                        let mut pops: Vec<String> = (0..*npops).map(|_| real_pop_s(&real_pop(r, size, dim, flv, outside))).collect();
+                        if r.chance(1, 2) { let extra = 1 + r.below(3) as usize; pops.push(real_pop_s(&real_pop(r, extra, dim, Flavour::Mixed, false))); }
+                        emit(format!("(comp {name} (prob real {dim} {} {} {}) (seed {}) (params {}) {})", fx(-1.0), fx(1.0), fx(0.0), r.below(1000), pstr(params), tagged("pops", pops)));
+                    }
+                }
+            }
+        }
+        // DE mutation with two difference pairs (y = 2): groups of five; sometimes the FIRST pair is equal, sometimes all pairs
+        for _ in 0..12 {
+            let dim = 1 + r.below(3) as usize;
+            let groups = 1 + r.below(2) as usize;
+            let mut p = real_pop(r, 5 * groups, dim, Flavour::Plain, false);
+            for g in 0..groups {
+                match r.below(3) { 0 => { p[5 * g + 2] = p[5 * g + 1].clone(); } 1 => { p[5 * g + 2] = p[5 * g + 1].clone(); p[5 * g + 4] = p[5 * g + 3].clone(); } _ => {} }
+            }
+            emit(format!("(comp DEMutation (prob real {dim} {} {} {}) (seed {}) (params {}) (pops {}))", fx(-1.0), fx(1.0), fx(0.0), r.below(1000), pstr(&[2.0, 0.5]), real_pop_s(&p)));
+        }
+        // evaluator, best update, selections, replacements, archive, swarm and molecule memories, firefly, duplication
+        for size in [0usize, 1, 2, 3, 5] {
+            for flv in [Flavour::Plain, Flavour::Mixed, Flavour::Ties, Flavour::Dups] {
+                if size < 2 && (flv == Flavour::Ties || flv == Flavour::Dups) { continue; }
+                let dim = 1 + r.below(3) as usize;
+                let hdr = format!("(prob real {dim} {} {} {}) (seed {})", fx(-1.0), fx(1.0), fx(0.0), r.below(1000));
+                let p0 = real_pop(r, size, dim, flv, false);
+                let other = 1 + r.below(4) as usize;
+                let n1 = if r.chance(1, 2) { size } else { other };
+                let p1 = real_pop(r, n1, dim, if flv == Flavour::Mixed { Flavour::Plain } else { flv }, false);
+                // a second population that shares members with the first (what a selection leaves behind)
+                let mut p1s = p1.clone();
+                for k in 0..p1s.len() { if !p0.is_empty() && r.chance(1, 2) { p1s[k] = p0[r.below(p0.len() as u64) as usize].clone(); } }
+                let one = tagged("pops", [real_pop_s(&p0)]);
+                let two = tagged("pops", [real_pop_s(&p0), real_pop_s(&p1)]);
+                let two_shared = tagged("pops", [real_pop_s(&p0), real_pop_s(&p1s)]);
+                // the population a memory is seeded from must be evaluated (the setup itself would panic otherwise)
+                let p1e: Vec<(Vec<f64>, bool)> = p1s.iter().map(|(s, _)| (s.clone(), true)).collect();
+                let two_seeded = tagged("pops", [real_pop_s(&p0), real_pop_s(&p1e)]);
+                let three = tagged("pops", [real_pop_s(&p0), real_pop_s(&p1), real_pop_s(&real_pop(r, 2, dim, Flavour::Mixed, false))]);
+                emit(format!("(comp PopulationEvaluator {hdr} (params) {one})"));
+                emit(format!("(comp PopulationEvaluator {hdr} (params) {three})"));
+                emit(format!("(comp DuplicatePopulation {hdr} (params) {two})"));
+                emit(format!("(comp BestIndividualUpdate {hdr} (params) {one})"));
+                emit(format!("(comp BestIndividualUpdate {hdr} (params) {two} (pre BestIndividualUpdate 1))"));
+                for (name, params) in [("All", vec![]), ("CloneSingle", vec![3.0]), ("FullyRandom", vec![4.0]), ("RandomWithoutRepetition", vec![2.0]),
+                                       ("Tournament", vec![3.0, 2.0]), ("LinearRank", vec![3.0]), ("RouletteWheel", vec![3.0, 1.0])] {
+                    emit(format!("(comp {name} {hdr} (params {}) {two})", pstr(&params)));
+                }
+                for (name, params) in [("DiscardOffspring", vec![]), ("Merge", vec![]), ("MuPlusLambda", vec![3.0]), ("Generational", vec![3.0]),
+                                       ("RandomReplacement", vec![2.0]), ("KeepBetterAtIndex", vec![])] {
+                    emit(format!("(comp {name} {hdr} (params {}) {two_shared})", pstr(&params)));
+                    emit(format!("(comp {name} {hdr} (params {}) {three})", pstr(&params)));
+                }
+                for k in [0.0, 1.0, 3.0, 7.0] {
+                    emit(format!("(comp ElitistArchiveUpdate {hdr} (params {}) {one})", fx(k)));
+                    emit(format!("(comp ElitistArchiveUpdate {hdr} (params {}) {two_seeded} (pre ElitistArchiveUpdate 1 {}))", fx(k), fx(k)));
+                    emit(format!("(comp ElitistArchiveIntoPopulation {hdr} (params) {two_seeded} (pre ElitistArchiveUpdate 1 {}))", fx(k)));
+                }
+                emit(format!("(comp PersonalBestParticlesInit {hdr} (params) {one})"));
+                emit(format!("(comp PersonalBestParticlesInit {hdr} (params) {two} (pre PersonalBestParticlesInit 1))"));
+                emit(format!("(comp PersonalBestParticlesUpdate {hdr} (params) {two} (pre PersonalBestParticlesInit 1))"));
+                emit(format!("(comp PersonalBestParticlesUpdate {hdr} (params) {two_seeded} (pre PersonalBestParticlesInit 1))"));
+                emit(format!("(comp GlobalBestParticleUpdate {hdr} (params) {one})"));
+                emit(format!("(comp GlobalBestParticleUpdate {hdr} (params) {two} (pre GlobalBestParticleUpdate 1))"));
+                emit(format!("(comp ChemicalReactionInit {hdr} (params {}) {one})", pstr(&[1.0, 0.0])));
+                if flv != Flavour::Mixed {
+                    for (alpha, beta, gamma) in [(0.25, 1.0, 0.01), (0.0, 0.5, 1.0), (0.0, 0.0, 0.0)] {
+                        emit(format!("(comp FireflyPositionsUpdate {hdr} (params {}) {two})", pstr(&[alpha, beta, gamma])));
+                    }
+                }
+            }
+        }
+        // the four CRO reactions: (products) (reactants = copies of members of the population) (population), molecules seeded
+        for size in [1usize, 2, 3, 5] {
+            for flv in [Flavour::Plain, Flavour::Ties, Flavour::Dups] {
+                if size < 2 && flv != Flavour::Plain { continue; }
+                for (name, nreact, nprod) in [("OnWallIneffectiveCollisionUpdate", 1usize, 1usize), ("DecompositionUpdate", 1, 2),
+                                              ("IntermolecularIneffectiveCollisionUpdate", 2, 2), ("SynthesisUpdate", 2, 1)] {
+                    for ke in [0.0, 100.0] {
+                        let dim = 1 + r.below(3) as usize;
+                        let pop = real_pop(r, size, dim, flv, false);
+                        let mut idx: Vec<usize> = (0..size).collect();
+                        for i in (1..size).rev() { idx.swap(i, r.below(i as u64 + 1) as usize); }
+                        let mut react: Vec<(Vec<f64>, bool)> = idx.iter().take(nreact).map(|k| pop[*k].clone()).collect();
+                        let mut prod = real_pop(r, nprod, dim, Flavour::Plain, false);
+                        match r.below(10) {
+                            0 => { react.push(real_pop(r, 1, dim, Flavour::Plain, false)[0].clone()); } // too many reactants
+                            1 => { if !react.is_empty() { react[0] = (vec![0.99; dim], true); } }        // not a member
+                            2 => { prod.pop(); }                                                          // too few products
+                            3 => { if size > 0 { prod[0] = pop[0].clone(); } }                            // product equal to a member
+                            _ => {}
+                        }
+                        emit(format!("(comp {name} (prob real {dim} {} {} {}) (seed {}) (params {}) (pops {} {} {}) (pre ChemicalReactionInit 2 {}))",
+                            fx(-1.0), fx(1.0), fx(0.0), r.below(1000), pstr(&[0.5]), real_pop_s(&prod), real_pop_s(&react), real_pop_s(&pop), pstr(&[ke, 10.0])));
                     }
                 }
             }
@@ -362,38 +613,69 @@ fn gen_comp(r: &mut Sm, thorough: bool, emit: &mut dyn FnMut(String)) {
                             xs[pos] = mk_x(r, pcat);
                             vs[pos] = mk_v(r, vcat);
                             emit(format!("(comp ParticleVelocitiesUpdate (prob real {dim} {} {} {}) (seed {}) (params {}) (pops {}) {})", fx(-1.0), fx(1.0), fx(0.0), r.below(1000),
-                                params.iter().map(|v| fx(*v)).collect::<Vec<_>>().join(" "), list(xs.iter().map(|s| fl(s))), tagged("vel", vs.iter().map(|s| fl(s)))));
+                                pstr(&params), list(xs.iter().map(|s| fl(s))), tagged("vel", vs.iter().map(|s| fl(s)))));
                         }
                     }
                 }
             }
         }
-        // bit strings and permutations
+        // swarm sizes 0 / 1 / 5
+        for n in [0usize, 1, 5] {
+            let dim = 2;
+            let xs = real_pop(r, n, dim, Flavour::Plain, true);
+            let vs: Vec<Vec<f64>> = (0..n).map(|_| (0..dim).map(|_| (r.unit() - 0.5) * 0.4).collect()).collect();
+            emit(format!("(comp ParticleVelocitiesUpdate (prob real {dim} {} {} {}) (seed {}) (params {}) (pops {}) {})", fx(-1.0), fx(1.0), fx(0.0), r.below(1000),
+                pstr(&[0.7, 1.0, 1.0, 1.0]), real_pop_s(&xs), tagged("vel", vs.iter().map(|s| fl(s)))));
+        }
+        // bit strings and permutations: sizes 0 / 1 / 2 / 4 / 5, some members unevaluated
+        let bmember = |r: &mut Sm, s: String, mixed: bool| if mixed && r.chance(1, 2) { format!("(u {})", &s[1..s.len() - 1]) } else { s };
         for dim in [1usize, 3, 6] {
             for (name, params) in [("BitFlipMutation", vec![0.0]), ("BitFlipMutation", vec![0.5]), ("BitFlipMutation", vec![1.0]),
-                                   ("PartialRandomBitstring", vec![0.5, 0.5]), ("UniformCrossover", vec![0.5, 1.0]), ("NPointCrossover", vec![1.0, 1.0, 0.0])] {
+                                   ("PartialRandomBitstring", vec![0.5, 0.5]), ("UniformCrossover", vec![0.5, 1.0]), ("UniformCrossover", vec![0.5, 0.0]),
+                                   ("NPointCrossover", vec![1.0, 1.0, 0.0]), ("NPointCrossover", vec![1.0, 0.5, 1.0]),
+                                   ("PopulationEvaluator", vec![]), ("Tournament", vec![3.0, 2.0]), ("MuPlusLambda", vec![2.0]), ("DuplicatePopulation", vec![])] {
                 if name == "NPointCrossover" && dim < 2 { continue; }
-                let p: Vec<String> = (0..4).map(|_| list((0..dim).map(|_| b(r.chance(1, 2))))).collect();
-                emit(format!("(comp {name} (prob binary {dim}) (seed {}) (params {}) (pops {}))", r.below(1000), params.iter().map(|v| fx(*v)).collect::<Vec<_>>().join(" "), list(p)));
+                for size in [4usize, 0, 1, 2, 5] {
+                    for mixed in [false, true] {
+                        if mixed && (name == "Tournament" || name == "MuPlusLambda") { continue; }
+                        let npops = if name == "MuPlusLambda" { 2 } else { 1 };
+                        let pops: Vec<String> = (0..npops).map(|_| list((0..size).map(|_| { let s = list((0..dim).map(|_| b(r.chance(1, 2)))); bmember(r, s, mixed) }))).collect();
+                        emit(format!("(comp {name} (prob binary {dim}) (seed {}) (params {}) {})", r.below(1000), pstr(&params), tagged("pops", pops)));
+                    }
+                }
             }
         }
         for n in [4usize, 6, 8] {
             for (name, params) in [("SwapMutation", vec![2.0]), ("SwapMutation", vec![3.0]), ("ScrambleMutation", vec![0.0]), ("ScrambleMutation", vec![1.0]),
-                                   ("InversionMutation", vec![]), ("InsertionMutation", vec![]), ("TranslocationMutation", vec![]), ("CycleCrossover", vec![1.0, 1.0])] {
-                let p: Vec<String> = (0..4).map(|_| { let mut v: Vec<u64> = (0..n as u64).collect(); for i in (1..n).rev() { v.swap(i, r.below(i as u64 + 1) as usize); } nats(v) }).collect();
-                emit(format!("(comp {name} (prob perm {n} {}) (seed {}) (params {}) (pops {}))", 11 + n, r.below(1000), params.iter().map(|v| fx(*v)).collect::<Vec<_>>().join(" "), list(p)));
+                                   ("InversionMutation", vec![]), ("InsertionMutation", vec![]), ("TranslocationMutation", vec![]), ("CycleCrossover", vec![1.0, 1.0]),
+                                   ("CycleCrossover", vec![0.5, 0.0]), ("PopulationEvaluator", vec![]), ("FullyRandom", vec![3.0]), ("Generational", vec![2.0])] {
+                for size in [4usize, 0, 1, 2, 5] {
+                    for mixed in [false, true] {
+                        let npops = if name == "Generational" { 2 } else { 1 };
+                        let pops: Vec<String> = (0..npops).map(|_| list((0..size).map(|_| {
+                            let mut v: Vec<u64> = (0..n as u64).collect();
+                            for i in (1..n).rev() { v.swap(i, r.below(i as u64 + 1) as usize); }
+                            let s = nats(v);
+                            bmember(r, s, mixed)
+                        }))).collect();
+                        emit(format!("(comp {name} (prob perm {n} {}) (seed {}) (params {}) {})", 11 + n, r.below(1000), pstr(&params), tagged("pops", pops)));
+                    }
+                }
             }
         }
     }
 }
 
+// ------------------------------------------------------------------ run level
+const MAX_LEAVES: usize = 40;
 struct Audit {
     steps: u64,
     checked: u64,
     evaluated: u64,
     stale: Option<String>,
-    frames: Vec<(usize, Box<dyn std::any::Any + Send>)>, // children, snapshot of the two top populations + height
-    leaves: BTreeSet<String>,
+    frames: Vec<(usize, Box<dyn std::any::Any + Send>)>, // children, (interner, before snapshot, top two populations + height)
+    keys: BTreeSet<String>,
+    leaves: Vec<String>,
     result: String,
 }
 fn short(name: &str) -> String {
@@ -440,28 +722,36 @@ fn snap<Q: HProblem>(state: &State<Q>) -> Snap<Q> {
     (pops.len(), pops.try_peek(0).map(|p| p.to_vec()).unwrap_or_default(), pops.try_peek(1).map(|p| p.to_vec()).unwrap_or_default())
 }
 fn flags<Q: HProblem>(p: &[Individual<Q>]) -> String { list(p.iter().map(|i| b(i.is_evaluated()))) }
+type Frame<Q> = (Intern<Q>, String, Snap<Q>);
 impl Visitor for Audit {
     fn step<Q: HProblem>(&mut self, phase: Phase, name: &'static str, index: usize, state: &State<Q>, problem: &Q) {
         match phase {
             Phase::Before => {
                 if self.steps == 0 { self.audit(state, problem, name, index); }
                 if let Some(f) = self.frames.last_mut() { f.0 += 1; }
-                self.frames.push((0, Box::new(snap(state))));
+                let mut it = Intern::<Q>::new();
+                let before = snapshot(state, &mut it);
+                let fr: Frame<Q> = (it, before, snap(state));
+                self.frames.push((0, Box::new(fr)));
             }
             Phase::After => {
                 self.steps += 1;
                 self.audit(state, problem, name, index);
                 let Some((children, before)) = self.frames.pop() else { return };
                 if children > 0 || name.contains("control_flow::") || name.contains("verif::LoopPass") { return; }
-                let Ok(before) = before.downcast::<Snap<Q>>() else { return };
-                let (h0, top0, sec0) = *before;
+                let Ok(before) = before.downcast::<Frame<Q>>() else { return };
+                let (mut it, before_s, (h0, top0, sec0)) = *before;
                 let (h1, top1, _) = snap(state);
+                let after_s = snapshot(state, &mut it);
+                // abstract key: one record per distinct (component, shape of the transition) and run
                 let dh = h1 as i64 - h0 as i64;
                 let same = top0.len() == top1.len() && top0.iter().zip(&top1).all(|(x, y)| x.solution() == y.solution());
                 let sub1 = top1.iter().all(|i| top0.contains(i));
                 let sub2 = top1.iter().all(|i| top0.contains(i) || sec0.contains(i));
-                if self.leaves.len() < 80 {
-                    self.leaves.insert(format!("({} {} {} {} {} {} {})", short(name), dh, flags(&top0), flags(&top1), b(same), b(sub1), b(sub2)));
+                let mem = |s: &str| s.find("(best").map(|k| s[k..].to_string()).unwrap_or_default();
+                let key = format!("({} {} {} {} {} {} {} {})", short(name), dh, flags(&top0), flags(&top1), b(same), b(sub1), b(sub2), b(mem(&before_s) == mem(&after_s)));
+                if self.leaves.len() < MAX_LEAVES && self.keys.insert(key) {
+                    self.leaves.push(list([short(name), it.ftab(problem), format!("(before {before_s})"), format!("(after {after_s})")]));
                 }
             }
         }
@@ -484,13 +774,12 @@ fn run_run(a: &[Sx]) -> String {
     let name = a[0].atom().unwrap();
     let (v, i, iters, seed) = (a[1].nat().unwrap() as u32, a[2].nat().unwrap() as u32, a[3].nat().unwrap() as u32, a[4].nat().unwrap());
     let ek = if a[5].atom().unwrap() == "par" { EvalKind::Parallel } else { EvalKind::Sequential };
-    let vis = Audit { steps: 0, checked: 0, evaluated: 0, stale: None, frames: vec![], leaves: BTreeSet::new(), result: String::new() };
+    let vis = Audit { steps: 0, checked: 0, evaluated: 0, stale: None, frames: vec![], keys: BTreeSet::new(), leaves: vec![], result: String::new() };
     match run_template(name, v, i, iters, seed, ek, vis) {
         Ok((vis, _)) => vis.result,
         Err(_) => "((out ctor-err) (steps 0) (checked 0) (evaluated 0) (stale none) (leaves))".into(),
     }
 }
-
 fn run_case(input: &Sx) -> (String, String) {
     let (tag, a) = input.head().unwrap();
     match tag {
@@ -581,6 +870,16 @@ fn main() {
                     let ek = if (v + i + k as u32) % 4 == 1 { "par" } else { "seq" };
                     emit(format!("(run {name} {v} {i} {iters} {seed} {ek})"));
                 }
+            }
+        }
+    }
+    // longer runs (converged swarms, shrunk / grown CRO populations, many acceptances): one per template and parameter point
+    let long_iters = if a.thorough { 120 } else { 40 };
+    for name in TEMPLATES {
+        for v in 0..N_VARIANTS {
+            for k in 0..(if a.thorough { 4 } else { 1 }) {
+                let seed = a.seed * 1000 + 500 + k;
+                emit(format!("(run {name} {v} {} {long_iters} {seed} {})", (v as u64 + k) % N_INSTANCES as u64, if k % 2 == 1 { "par" } else { "seq" }));
             }
         }
     }
